@@ -12,13 +12,14 @@ EXTENDS System, Json, IOUtils
 
 CONSTANTS MaxCalls,    \* external calls per behaviour
           MaxFails,    \* raising callbacks per behaviour
-          MaxActs      \* explicit re-activations per behaviour
+          MaxActs,     \* explicit re-activations / restarts / outside writes per behaviour
+          MaxX         \* sends from a callback of one instance to another instance, per behaviour
 
 VARIABLES di,          \* family member
-          ncalls, nfails, nacts,
+          ncalls, nfails, nacts, nx,
           hist         \* observable history (only kept when RecordHist; hidden by the VIEW otherwise)
 
-mvars == <<classes, insts, di, ncalls, nfails, nacts, hist>>
+mvars == <<classes, insts, di, ncalls, nfails, nacts, nx, hist>>
 
 Family == JsonDeserialize(IOEnv.DEFS_FILE)
 RecordHist == "MC_HIST" \in DOMAIN IOEnv
@@ -27,78 +28,97 @@ Rec(x) == IF RecordHist THEN hist' = Append(hist, x) ELSE hist' = hist
 
 MCInit == /\ di \in DOMAIN Family
           /\ SysInit(Family[di].classes)
-          /\ ncalls = 0 /\ nfails = 0 /\ nacts = 0
+          /\ ncalls = 0 /\ nfails = 0 /\ nacts = 0 /\ nx = 0
           /\ hist = <<>>
 
-Keep == UNCHANGED <<di, ncalls, nfails, nacts>>
+Keep == UNCHANGED <<di, ncalls, nfails, nacts, nx>>
+\* every instance is of class 1 of the family member; slots are filled in order (symmetry)
+Cbs(i) == IF Born(i) THEN DOMAIN D(i).cbs ELSE {}
 
-MCNew == /\ ~Born(1)
-         /\ \E o \in DOMAIN F.opts, g \in DOMAIN F.gvs, s \in DOMAIN F.stored :
-               /\ Instantiate(1, 1, F.opts[o], F.stored[s], SeqToSet(F.provs), F.gvs[g])
-               /\ Rec([e |-> "new", opt |-> F.opts[o], stored |-> F.stored[s], gv |-> F.gvs[g]])
+MCNew == /\ \E i \in Slots :
+               /\ ~Born(i) /\ (IF i = 1 THEN TRUE ELSE Born(i - 1))
+               /\ \E o \in DOMAIN F.opts, g \in DOMAIN F.gvs, s \in DOMAIN F.stored :
+                     /\ Instantiate(i, 1, F.opts[o], F.stored[s], SeqToSet(F.provs), F.gvs[g])
+                     /\ Rec([e |-> "new", i |-> i, opt |-> F.opts[o], stored |-> F.stored[s], gv |-> F.gvs[g]])
          /\ Keep
 
 MCCall == /\ ncalls < MaxCalls
-          /\ \E e \in DOMAIN F.evs, g \in DOMAIN F.gvs :
-                /\ ExtCall(1, F.evs[e], F.gvs[g])
-                /\ Rec([e |-> "call", ev |-> F.evs[e], gv |-> F.gvs[g]])
+          /\ \E i \in Slots, e \in DOMAIN F.evs, g \in DOMAIN F.gvs :
+                /\ ExtCall(i, F.evs[e], F.gvs[g])
+                /\ Rec([e |-> "call", i |-> i, ev |-> F.evs[e], gv |-> F.gvs[g]])
           /\ ncalls' = ncalls + 1
-          /\ UNCHANGED <<di, nfails, nacts>>
+          /\ UNCHANGED <<di, nfails, nacts, nx>>
 
 MCActivate == /\ nacts < MaxActs
-              /\ \E g \in DOMAIN F.gvs : Activate(1, F.gvs[g]) /\ Rec([e |-> "activate", gv |-> F.gvs[g]])
+              /\ \E i \in Slots, g \in DOMAIN F.gvs :
+                    Activate(i, F.gvs[g]) /\ Rec([e |-> "activate", i |-> i, gv |-> F.gvs[g]])
               /\ nacts' = nacts + 1
-              /\ UNCHANGED <<di, ncalls, nfails>>
+              /\ UNCHANGED <<di, ncalls, nfails, nx>>
 
 \* a new machine over the model of the old one: whatever the model stores is resumed
-MCRestart == /\ nacts < MaxActs /\ Born(1) /\ Idle(M(1))
-             /\ \E o \in DOMAIN F.opts, g \in DOMAIN F.gvs :
-                   /\ Instantiate(1, 1, F.opts[o], M(1).cur, SeqToSet(F.provs), F.gvs[g])
-                   /\ Rec([e |-> "restart", opt |-> F.opts[o], gv |-> F.gvs[g]])
+MCRestart == /\ nacts < MaxActs
+             /\ \E i \in Slots, o \in DOMAIN F.opts, g \in DOMAIN F.gvs :
+                   /\ Born(i) /\ Idle(M(i))
+                   /\ Instantiate(i, 1, F.opts[o], M(i).cur, SeqToSet(F.provs), F.gvs[g])
+                   /\ Rec([e |-> "restart", i |-> i, opt |-> F.opts[o], gv |-> F.gvs[g]])
              /\ nacts' = nacts + 1
-             /\ UNCHANGED <<di, ncalls, nfails>>
+             /\ UNCHANGED <<di, ncalls, nfails, nx>>
 
 \* the model field written from outside: through the machine's setter or behind its back
-MCWrite == /\ nacts < MaxActs /\ Born(1)
-           /\ \E v \in DOMAIN F.values :
-                 \/ WriteSetter(1, F.values[v]) /\ Rec([e |-> "write_setter", v |-> F.values[v]])
-                 \/ WriteModel(1, F.values[v])  /\ Rec([e |-> "write_model", v |-> F.values[v]])
+MCWrite == /\ nacts < MaxActs
+           /\ \E i \in Slots, v \in DOMAIN F.values :
+                 /\ Born(i)
+                 /\ \/ WriteSetter(i, F.values[v]) /\ Rec([e |-> "write_setter", i |-> i, v |-> F.values[v]])
+                    \/ WriteModel(i, F.values[v])  /\ Rec([e |-> "write_model", i |-> i, v |-> F.values[v]])
            /\ nacts' = nacts + 1
-           /\ UNCHANGED <<di, ncalls, nfails>>
+           /\ UNCHANGED <<di, ncalls, nfails, nx>>
 
-MCBegin == \E c \in DOMAIN classes[1].cbs : BeginCb(1, c) /\ Rec([e |-> "B", c |-> c]) /\ Keep
-MCEnd   == \E c \in DOMAIN classes[1].cbs : EndCb(1, c, FALSE) /\ Rec([e |-> "E", c |-> c, raised |-> FALSE]) /\ Keep
+MCBegin == \E i \in Slots : \E c \in Cbs(i) : BeginCb(i, c) /\ Rec([e |-> "B", i |-> i, c |-> c]) /\ Keep
+MCEnd   == \E i \in Slots : \E c \in Cbs(i) : EndCb(i, c, FALSE) /\ Rec([e |-> "E", i |-> i, c |-> c, raised |-> FALSE]) /\ Keep
 MCFail  == /\ nfails < MaxFails
-           /\ \E c \in DOMAIN classes[1].cbs : EndCb(1, c, TRUE) /\ Rec([e |-> "E", c |-> c, raised |-> TRUE])
+           /\ \E i \in Slots : \E c \in Cbs(i) : EndCb(i, c, TRUE) /\ Rec([e |-> "E", i |-> i, c |-> c, raised |-> TRUE])
            /\ nfails' = nfails + 1
-           /\ UNCHANGED <<di, ncalls, nacts>>
-MCNested == /\ Born(1) /\ M(1).budget > 0
-            /\ \E c \in DOMAIN classes[1].cbs, e \in DOMAIN F.nsends :
-                  NestedSend(1, c, F.nsends[e]) /\ Rec([e |-> "ncall", c |-> c, ev |-> F.nsends[e]])
+           /\ UNCHANGED <<di, ncalls, nacts, nx>>
+MCNested == /\ \E i \in Slots : \E c \in Cbs(i), e \in DOMAIN F.nsends :
+                  /\ M(i).budget > 0
+                  /\ NestedSend(i, c, F.nsends[e]) /\ Rec([e |-> "ncall", i |-> i, c |-> c, ev |-> F.nsends[e]])
             /\ Keep
-MCNRet  == \E c \in DOMAIN classes[1].cbs : NestedRet(1, c) /\ hist' = hist /\ Keep
+MCNRet  == \E i \in Slots : \E c \in Cbs(i) : NestedRet(i, c) /\ hist' = hist /\ Keep
+\* a callback of i sends an event to the other instance j: j runs it now (idle) or queues it (busy, RTC)
+MCXCall == /\ nx < MaxX
+           /\ \E i \in Slots, j \in Slots : \E c \in Cbs(i), e \in DOMAIN F.nsends :
+                 /\ i # j /\ Born(j)
+                 /\ IF Idle(M(j)) THEN XCall(i, c, j, F.nsends[e], M(i).gv) ELSE XQueue(i, c, j, F.nsends[e])
+                 /\ Rec([e |-> "xcall", i |-> i, c |-> c, to |-> j, ev |-> F.nsends[e]])
+           /\ nx' = nx + 1
+           /\ UNCHANGED <<di, ncalls, nfails, nacts>>
+MCXRet  == \E i \in Slots : \E c \in Cbs(i) : XRet(i, c) /\ hist' = hist /\ Keep
 Quiet == hist' = hist /\ Keep
-MCLoopPop   == LoopPop(1)   /\ Quiet
-MCLoopExit  == LoopExit(1)  /\ Quiet
-MCSelect    == Select(1)    /\ Quiet
-MCGuardFail == GuardFail(1) /\ Quiet
-MCAdvance   == Advance(1)   /\ Quiet
-MCAssign    == Assign(1)    /\ Quiet
-MCTrigDone  == TrigDone(1)  /\ Quiet
-MCUnwind    == Unwind(1)    /\ Quiet
-MCReturn   == Return(1) /\ Rec([e |-> "ret", out |-> M(1).out, cur |-> M(1).cur]) /\ Keep
+MCLoopPop   == \E i \in Slots : LoopPop(i)   /\ Quiet
+MCLoopExit  == \E i \in Slots : LoopExit(i)  /\ Quiet
+MCSelect    == \E i \in Slots : Select(i)    /\ Quiet
+MCGuardFail == \E i \in Slots : GuardFail(i) /\ Quiet
+MCAdvance   == \E i \in Slots : Advance(i)   /\ Quiet
+MCAssign    == \E i \in Slots : Assign(i)    /\ Quiet
+MCTrigDone  == \E i \in Slots : TrigDone(i)  /\ Quiet
+MCUnwind    == \E i \in Slots : Unwind(i)    /\ Quiet
+\* the OUTERMOST caller gets its answer (an instance inside a cross-instance send answers through XRet)
+Waited(j) == \E i \in Slots : i # j /\ XWaits(insts, i, j)
+MCReturn   == \E i \in Slots : /\ ~Waited(i)
+                                /\ Return(i) /\ Rec([e |-> "ret", i |-> i, out |-> M(i).out, cur |-> M(i).cur]) /\ Keep
 
 MCNext == \/ MCNew \/ MCCall \/ MCActivate \/ MCRestart \/ MCWrite \/ MCBegin \/ MCEnd \/ MCFail
-          \/ MCNested \/ MCNRet \/ MCReturn
+          \/ MCNested \/ MCNRet \/ MCXCall \/ MCXRet \/ MCReturn
           \/ MCLoopPop \/ MCLoopExit \/ MCSelect \/ MCGuardFail \/ MCAdvance \/ MCAssign
           \/ MCTrigDone \/ MCUnwind
 MCSpec == MCInit /\ [][MCNext]_mvars
 
-MCView == <<classes, insts, di, ncalls, nfails, nacts>>
+MCView == <<classes, insts, di, ncalls, nfails, nacts, nx>>
 
 \* spec -> code: one observable history per distinct quiescent end state of the bounded model
 \* (hist is outside the VIEW), printed as JSON for lib/replay to run on the implementation
-Done == Born(1) /\ ncalls = MaxCalls /\ M(1).stack = <<>> /\ M(1).out.k = "none"
+Done == /\ \A i \in Slots : Born(i) /\ M(i).stack = <<>> /\ M(i).out.k = "none"
+        /\ ncalls = MaxCalls
 PrintHist == (RecordHist /\ Done) => PrintT(<<"HIST", ToJson([di |-> di, hist |-> hist])>>)
 
 (***************************************************************************)
